@@ -31,6 +31,8 @@ TWO_PI = 2 * math.pi
 
 def profile(tier):
     return {
+        # small negative shifts (a reference just below a full turn is not a reference of 0)
+        "extra_phases": [-3e-5, -2e-5, -3e-5, TWO_PI - 2e-5, -1e-7],
         "fault_pct": 3, "min_ops": 6, "max_ops": 35 if tier == "quick" else 60,
         "min_channels": 2, "measure": False, "slm": False,
         "weights": {"declare": 7, "declare_more": 2, "add": 12, "align": 1,
